@@ -88,6 +88,12 @@ def check_stats(case, ctx):
         data[j_, i_] = -1e30 * case['extreme_pair']
         if i_ + 1 < nx:
             data[j_, i_ + 1] = 1e30 * case['extreme_pair']
+        if abs(case['extreme_pair']) == 2:
+            # ... plus a third huge pixel a few columns away (huge moments of
+            # non-negative determinant)
+            data[j_, i_] = -1e30
+            data[j_, min(i_ + 1, nx - 1)] = 1e30
+            data[max(j_ - 3, 0), max(i_ - 6, 0)] = 1e30
     mask = build_mask(case.get('mask'), ny, nx)
     error = None
     if case.get('error_seed') is not None:
@@ -350,7 +356,7 @@ def stats_cases(draw):
             'error_seed': draw(st.one_of(st.none(), st.integers(0, 10**6))),
             'shape': sh,
             'sum_method': draw(st.sampled_from(['exact', 'center', 'subpixel'])),
-            'extreme_pair': draw(st.sampled_from([0, 0, 0, 0, 1, -1])),
+            'extreme_pair': draw(st.sampled_from([0, 0, 0, 0, 1, -1, 2])),
             'subpixels': draw(st.sampled_from([1, 2, 5, 8])),
             'positions': draw(positions_around(ny, nx, reach, 1, 5)),
             'scalar': draw(st.booleans()),
